@@ -153,6 +153,9 @@ S1 = [
     "t = TopO(MidO(1 if c() else None))\n    w = {e}\n    v = 0\n    if t.b.v is not None:\n        t.b = MidO(None)\n        v = t.b.v\n    use(v)",
     "t = TopO(MidO(1 if c() else None))\n    w = {e}\n    v = 0\n    if t.b.leaf.v is not None:\n        t.b.leaf = LeafO()\n        v = t.b.leaf.v\n    use(v)",
     "t = TopO(MidO(1 if c() else None))\n    w = {e}\n    v = 0\n    if t.b.leaf.v is not None:\n        t.b = MidO(None)\n        v = t.b.leaf.v\n    use(v)",
+    # a loop with break inside a try body, between an assignment and a call that may raise
+    "v = 0\n    try:\n        v = {e}\n        for w in (1, 2):\n            if c():\n                break\n        boom()\n    except ValueError:\n        use(v)",
+    "v = 0\n    try:\n        v = {e}\n        while c():\n            if c():\n                continue\n            break\n        boom()\n    except ValueError:\n        use(v)\n    use(v)",
 ]
 S2 = [
     "w = v\n    use(w)",
